@@ -76,6 +76,10 @@ type Exec struct {
 	// specEq: == on aggregates in contracts is identity (a NaN field equals
 	// itself); goeq() gives Go's IEEE semantics.
 	specEq bool
+	// invLoopBlocks: while a loop invariant is evaluated, locals declared
+	// inside that loop are not in scope (so a name means the same variable at
+	// loop entry and at the back edge)
+	invLoopBlocks map[*ssa.BasicBlock]bool
 }
 
 type unsupportedErr struct{ msg string }
@@ -171,9 +175,15 @@ func (ex *Exec) oblige(st *State, fr *Frame, kind string, pos token.Pos, src str
 	}
 	o.Inputs = ex.vc.inputs
 	ex.vc.obls = append(ex.vc.obls, o)
-	// after checking, the fact may be assumed on this path (the program would
-	// have panicked otherwise)
-	ex.vc.Assume(implies(st.guard, goal))
+	// after a runtime check the fact may be assumed on this path (the program
+	// would have panicked otherwise); contract-level facts (invariants, pre and
+	// post-conditions) are assumed too: they are proved here. Discipline checks
+	// (guarded, lock-*, assigns) do not stop the real program and are not assumed.
+	switch {
+	case strings.HasPrefix(kind, "guarded"), strings.HasPrefix(kind, "lock-nostack"), strings.HasPrefix(kind, "lock-balance"), kind == "assigns", kind == "noblock-under-lock":
+	default:
+		ex.vc.Assume(implies(st.guard, goal))
+	}
 	return o
 }
 
